@@ -299,8 +299,22 @@ pub fn case_c16(d: &[u8]) -> c16::Case {
         }
         _ => {}
     }
-    let br = (0..n).map(|_| r.f(-1.0, 1.0)).collect();
-    let bi = (0..n).map(|_| if complex { r.f(-1.0, 1.0) } else { 0.0 }).collect();
+    let mut br: Vec<f64> = (0..n).map(|_| r.f(-1.0, 1.0)).collect();
+    let mut bi: Vec<f64> = (0..n).map(|_| if complex { r.f(-1.0, 1.0) } else { 0.0 }).collect();
+    // appended fields (older corpus files decode to kind 0 = dense): right-hand sides with exact zeros, entries with a zero part
+    let rhs_kind = r.u8() % 8;
+    let bp = r.idx(n);
+    let bmask: Vec<u8> = (0..n).map(|_| r.u8() % 10).collect();
+    c16::shape_rhs(rhs_kind, &bmask, bp, complex, &mut br, &mut bi);
+    if complex && r.u8() % 4 == 1 {
+        for k in 0..nn {
+            match r.u8() % 10 {
+                0..=3 => ai[k] = 0.0,
+                8 | 9 => ar[k] = 0.0,
+                _ => {}
+            }
+        }
+    }
     c16::Case { n, kind: kind.to_string(), complex, ar, ai, br, bi, mis: c16::Mis::None, struct_singular }
 }
 
